@@ -1,0 +1,62 @@
+//! C16 helper (child of `transport::manager`): lets the Kademlia adapter play the transport
+//! manager's shared peer-state map, whose types are private to this module.
+
+use super::{
+    peer_state::{ConnectionRecord, PeerState},
+    types::PeerContext,
+};
+use crate::{types::ConnectionId, PeerId};
+
+use multiaddr::Multiaddr;
+use parking_lot::RwLock;
+
+use std::{collections::HashMap, sync::Arc};
+
+/// The map shared between `TransportManager` and its handles.
+pub type Peers = Arc<RwLock<HashMap<PeerId, PeerContext>>>;
+
+/// Empty peer map.
+pub fn new_peers() -> Peers {
+    Arc::new(RwLock::new(HashMap::new()))
+}
+
+/// The manager's view of a peer.
+#[derive(Debug, Clone, Copy, PartialEq, Eq)]
+pub enum View {
+    /// Not connected, no dial in progress.
+    Disconnected,
+    /// Dial in progress.
+    Dialing,
+    /// Connected.
+    Connected,
+}
+
+/// Force the manager's view of `peer` (known addresses are kept).
+pub fn set_view(peers: &Peers, peer: PeerId, view: View) {
+    let record = || ConnectionRecord::new(peer, Multiaddr::empty(), ConnectionId::from(0usize));
+    let mut peers = peers.write();
+    let context = peers.entry(peer).or_default();
+    context.state = match view {
+        View::Disconnected => PeerState::Disconnected { dial_record: None },
+        View::Dialing => PeerState::Dialing {
+            dial_record: record(),
+        },
+        View::Connected => PeerState::Connected {
+            record: record(),
+            secondary: None,
+        },
+    };
+}
+
+/// Does the manager know a dialable address of `peer`?
+pub fn has_address(peers: &Peers, peer: &PeerId) -> bool {
+    peers.read().get(peer).map_or(false, |context| !context.addresses.is_empty())
+}
+
+/// Is a dial of `peer` in progress (manager's view)?
+pub fn is_dialing(peers: &Peers, peer: &PeerId) -> bool {
+    peers
+        .read()
+        .get(peer)
+        .map_or(false, |context| std::matches!(context.state, PeerState::Dialing { .. }))
+}
